@@ -207,6 +207,14 @@ def audit(pid: str) -> AuditResult:
     return AuditResult(theorems, bad, missing, forbidden_scan(), out)
 
 
+def leanchecker(modules: list[str], timeout: int = 1800) -> tuple[bool, str]:
+    """Independent re-check of the compiled modules by the toolchain's `leanchecker` (thorough tier)."""
+    with lake_lock():
+        proc = subprocess.run(["lake", "env", "leanchecker", *modules], cwd=LEAN_DIR, capture_output=True,
+                              text=True, timeout=timeout, env=_clean_env())
+    return proc.returncode == 0, (proc.stdout + proc.stderr)[-2000:]
+
+
 def hexs(s: str) -> str:
     """Protocol encoding of a string: hex of its UTF-8 bytes, `-` for the empty string."""
     b = s.encode("utf-8", "surrogatepass")
